@@ -24,12 +24,13 @@ Classes == {"missing", "empty", "partial", "oversize", "corrupt", "good"}
 HasSize(K) == K \in {"size", "both"}
 HasHash(K) == K \in {"hash", "both"}
 
-\* classification of an observed file [ex, sz, esz, same]  (esz > 0)
+\* classification of an observed file [ex, sz, esz, same].  The expected size may be 0 (a
+\* distfile that IS empty): then a zero-length file is the good file, not an "empty" leftover.
 Class(f) == IF ~f.ex THEN "missing"
+            ELSE IF f.sz = f.esz THEN (IF f.same THEN "good" ELSE "corrupt")
             ELSE IF f.sz = 0 THEN "empty"
             ELSE IF f.sz < f.esz THEN "partial"
-            ELSE IF f.sz > f.esz THEN "oversize"
-            ELSE IF f.same THEN "good" ELSE "corrupt"
+            ELSE "oversize"
 
 (* "has the expected size and every required checksum".  Without checksums the
    statement only presupposes that there is a file.                            *)
